@@ -296,7 +296,7 @@ func Run(r *fw.Run) {
 	r.Rule = "directories (generated worlds written to disk: plain, NetworkPolicy, ANP+BANP, Ingress, exposure-rich, ingress/route worlds, one with 120 resources; a severe-error, a syntax-error, a fatal-error, an empty, a workload-less and a missing directory; 7 of /repo/tests) x the full product of valid flag combinations: list -o(5) x --exposure(2) x --focusworkload(none, present, absent) x --fail(2) x {-q,-v,neither} x -f(2, onto an existing longer file); diff over ordered directory pairs -o(4) x --fail(2) x {-q,-v,neither} x -f(2); every combination spawns the freshly built k8snetpolicy binary and is compared with the library call for the same options; non-trivial = exit 0 with non-empty stdout; distinct = each combination"
 	r.Assume = []string{"stdout only is compared (logs go to stderr)", "when the library call fails only the exit status is compared"}
 	if r.Quick() {
-		r.SetBudget(170 * time.Second)
+		r.SetBudget(300 * time.Second)
 	} else {
 		r.SetBudget(30 * time.Minute)
 	}
